@@ -494,6 +494,38 @@ class FakeConn:
         pass
 
 
+class CFile:
+    """The output file of the table manager: the first write of a burst of
+    writes (since the thread's last scheduling point) is a scheduling point -
+    another thread, or an interrupt, may come between the manager's decision
+    and what reaches the file."""
+
+    def __init__(self, sched: Sched, f):
+        self._s, self._f = sched, f
+        self._last: Dict[str, int] = {}
+        self.label = 'logfile'
+
+    def write(self, data):
+        try:
+            me = self._s.me()
+        except KeyError:
+            return self._f.write(data)
+        if self._last.get(me.name) != me.npoints:
+            self._s.yield_point('file.write', self)
+            self._last[me.name] = me.npoints
+        return self._f.write(data)
+
+    def __enter__(self):
+        return self
+
+    def __exit__(self, *exc):
+        self._f.close()
+        return False
+
+    def __getattr__(self, name):
+        return getattr(self._f, name)
+
+
 class FakeSocket:
     """What socket.socket(AF_INET, SOCK_STREAM) returns under the baton."""
 
@@ -621,6 +653,8 @@ class World:
         self._set(smod, 'time', FakeTime(sched))
         self._set(imod, 'socket', self.net)
         self._set(cmod, 'print', lambda *a, **k: None)
+        import builtins as _builtins
+        self._set(smod, 'open', lambda *a, **k: CFile(sched, _builtins.open(*a, **k)))
         # an interrupt of "the main thread" is an interrupt of the thread that
         # runs Server.run, not of the harness
         import _thread
@@ -634,8 +668,14 @@ class World:
             if tgt is me:
                 raise KeyboardInterrupt()
             sched.inject[(tgt.name, tgt.npoints + 1)] = KeyboardInterrupt()
+        real_im, real_rs = _thread.interrupt_main, _signal.raise_signal
         self._set(_thread, 'interrupt_main', interrupt_main)
         self._set(_signal, 'raise_signal', lambda *a, **k: interrupt_main())
+        # ... also where the real code bound them by name when it was imported
+        for mod in (smod, cmod, imod):
+            for name, v in list(vars(mod).items()):
+                if v is real_im or v is real_rs:
+                    self._set(mod, name, interrupt_main)
         # primitives that exist already (created when the module was imported:
         # class attributes, module globals - one per process, shared by every
         # Server object) are put under the scheduler for the session as well
@@ -695,7 +735,7 @@ class World:
     def __exit__(self, *exc):
         import logging
         for obj, name, old in reversed(self.saved):
-            if old is None and name in ('print',):
+            if old is None and name in ('print', 'open'):
                 try:
                     delattr(obj, name)
                 except AttributeError:
